@@ -266,6 +266,8 @@ def check_worker(copy_dir, jobs, resf_lock, res, resf, tier):
             shutil.rmtree(os.path.join(copy_dir, "replays"), ignore_errors=True)
             os.makedirs(os.path.join(copy_dir, "replays"), exist_ok=True)
         with resf_lock:
+            if m["id"] in res and isinstance(res[m["id"]], dict):
+                merged = dict(res[m["id"]]); merged.update(out); out = merged
             res[m["id"]] = out
             json.dump(res, open(resf, "w"), indent=0)
         print(m["id"], m["file"], m["line"], m["old"].strip(), "->", m["new"].strip(), {k: v.get("rc") for k, v in out.items() if isinstance(v, dict)}, flush=True)
@@ -285,6 +287,13 @@ def check(args):
     todo = [m for m in muts if sres.get(m["id"], {}).get("survives_suite") and m["id"] not in res]
     if args.only_file:
         todo = [m for m in todo if m["file"] == args.only_file]
+    if args.recheck_props:
+        # second pass: mutants of --only-file that no check of the first pass reported, against further properties
+        extra = args.recheck_props.split(",")
+        FILE_PROPS[args.only_file] = extra
+        todo = [m for m in muts if m["file"] == args.only_file and m["id"] in res
+                and not any(isinstance(v, dict) and v.get("rc") == 1 for v in res[m["id"]].values())
+                and not all(p in res[m["id"]] for p in extra)]
     if args.limit:
         todo = todo[:args.limit]
     print(len(todo), "survivors to check")
@@ -354,5 +363,6 @@ if __name__ == "__main__":
     ap.add_argument("--tier", default="quick")
     ap.add_argument("--keep", action="store_true")
     ap.add_argument("--all-props", action="store_true")
+    ap.add_argument("--recheck-props", default=None)
     a = ap.parse_args()
     {"gen": gen, "suite": suite, "check": check, "report": report}[a.cmd](a)
